@@ -2,7 +2,9 @@
    (Drop cancels it), or cancelled, read to its terminal message and dropped, or cancelled
    twice and dropped; or dropped while the server answers its Cancel by closing the connection
    (mode 3) or the channel (mode 4), or dropped while its thread unwinds from a caught panic
-   (mode 5) - in half of the scenarios while the I/O thread is slow
+   (mode 5), or dropped while bystander B sits on a backlog of more than 65535 unread deliveries
+   (mode 6; there the long lists are compacted: expected = [how many], yielded = [length of the
+   longest prefix that is exactly what was expected; whatever follows]) - in half of the scenarios while the I/O thread is slow
    between notifying consumers and releasing the caller (scheduling point 2).  The bystanders
    B (same channel) and C (another channel) end with exactly one terminal message naming the
    true cause.
@@ -38,6 +40,11 @@ Definition oracle_ok (c : case) : bool :=
         are not affected *)
      negb alive1 && alive2 && (close_code =? 0) &&
      queue_ok eb gb db t_server_closed_channel && queue_ok ec gc dc t_client_closed_connection
+   else if mode =? 6 then
+     (* a consumer that does not keep up loses nothing: every one of the deliveries, in order,
+        then the terminal message *)
+     alive1 && alive2 && (close_code =? 0) &&
+     queue_ok eb gb db t_client_closed_connection && queue_ok ec gc dc t_client_closed_connection
    else
      alive1 && alive2 && (close_code =? 0) &&
      queue_ok eb gb db t_client_closed_connection && queue_ok ec gc dc t_client_closed_connection) &&
